@@ -493,14 +493,51 @@ def corpus_charts():
     return out
 
 
+def combo_chart(case):
+    """A combination chart as PowerPoint writes it and python-pptx never does: a clustered bar chart made through
+    the API from case['data0'], whose last case['combo'] series are then moved (lxml) into a c:lineChart that follows
+    the c:barChart in the same c:plotArea and shares its axes."""
+    import copy
+    from lxml import etree
+    from pptx import Presentation
+    from pptx.enum.chart import XL_CHART_TYPE
+    from pptx.util import Inches
+
+    prs = Presentation()
+    slide = prs.slides.add_slide(prs.slide_layouts[6])
+    with warnings.catch_warnings():
+        warnings.simplefilter("ignore")
+        chart = slide.shapes.add_chart(XL_CHART_TYPE.COLUMN_CLUSTERED, 0, 0, Inches(4), Inches(3), build(case["data0"])).chart
+    bar = chart._chartSpace.plotArea.find(C("barChart"))
+    sers = bar.findall(C("ser"))
+    line = etree.Element(C("lineChart"))
+    etree.SubElement(line, C("grouping")).set("val", "standard")
+    etree.SubElement(line, C("varyColors")).set("val", "0")
+    for sr in sers[len(sers) - case["combo"]:]:
+        bar.remove(sr)
+        for tag in ("invertIfNegative",):
+            for el in sr.findall(C(tag)):
+                sr.remove(el)
+        line.append(sr)
+    etree.SubElement(line, C("marker")).set("val", "1")
+    for ax in bar.findall(C("axId")):
+        line.append(copy.deepcopy(ax))
+    bar.addnext(line)
+    case["_chart_keepalive"] = prs
+    return chart
+
+
 def impl_corpus(case):
     """replace_data on a chart of a PowerPoint-authored deck; state observed afterwards."""
     import os
     from pptx import Presentation
 
     repo = os.environ.get("VERIF_REPO", "/repo")
-    prs = Presentation(os.path.join(repo, case["file"]))
-    chart = prs.slides[case["slide"]].shapes[case["shape"]].chart
+    if case.get("combo"):
+        chart = combo_chart(case)
+    else:
+        prs = Presentation(os.path.join(repo, case["file"]))
+        chart = prs.slides[case["slide"]].shapes[case["shape"]].chart
     try:
         with warnings.catch_warnings():
             warnings.simplefilter("ignore")
@@ -1052,6 +1089,30 @@ def gen_cases(tier, rng):
     for i, (f, si, hi, kind, d19) in enumerate(cc if not quick else cc[::3]):
         d = gen_cat(rng, nser=rng.randint(1, 5)) if kind == "cat" else gen_xy(rng, kind, nser=rng.randint(1, 5))
         cases.append({"op": "corpus", "file": f, "slide": si, "shape": hi, "data": d, "date1904": d19, "klass": "corpus-" + kind})
+    # E3. combination charts (two plots sharing the axes): every multi-plot chart of the corpus and generated
+    # bar + line charts, with fewer series than the last plot holds, fewer than the first, and more than before
+    multi = []
+    for (f, si, hi, kind, d19) in cc:
+        try:
+            from pptx import Presentation
+            import os
+            ch = Presentation(os.path.join(os.environ.get("VERIF_REPO", "/repo"), f)).slides[si].shapes[hi].chart
+            sizes = [len(list(p.series)) for p in ch.plots]
+        except Exception:  # noqa
+            continue
+        if len(sizes) > 1:
+            multi.append((f, si, hi, kind, d19, sizes))
+    for (f, si, hi, kind, d19, sizes) in multi:
+        for n in sorted({1, max(1, sizes[0] - 1), max(1, sum(sizes) - 1), sum(sizes) + 2}):
+            d = gen_cat(rng, nser=n) if kind == "cat" else gen_xy(rng, kind, nser=n)
+            cases.append({"op": "corpus", "file": f, "slide": si, "shape": hi, "data": d, "date1904": d19, "klass": "combo-corpus"})
+    for i in range(6 if quick else 60):
+        n0 = rng.randint(3, 6)
+        d0 = gen_cat(rng, nser=n0, depth=1)
+        m = rng.randint(1, n0 - 1)
+        for n in sorted({1, max(1, n0 - m - 1), n0 - 1, n0 + 1}):
+            cases.append({"op": "corpus", "combo": m, "data0": d0, "file": "<generated bar+line>", "slide": 0, "shape": 0,
+                          "data": gen_cat(rng, nser=n, depth=1), "date1904": False, "klass": "combo-generated"})
     # F. edge classes of the property's domain (each is reported under its own signature when it fails)
     for i in range(12 if quick else 120):   # empty series (add_series default values=())
         d = gen_cat(rng, nser=rng.randint(1, 4), p_empty=0.5) if i % 3 == 0 else gen_xy(rng, ["xy", "bub"][i % 2], nser=rng.randint(1, 4), p_empty=0.5)
